@@ -79,12 +79,12 @@ def mkfilter(mode, rejects=(), h=None):
     return Callback("filterfunc", lambda I, n, a, k: not any(a and a[0] is r for r in rejects))
 
 
-def build(h, rows):
+def build(h, rows, vcls="Vertex"):
     """vertex `a` whose links are one link per row, other end b_i (or a itself for a self-loop)."""
-    a = h.vertex("a")
+    a = h.vertex("a", vcls)
     links, others = [], []
     for i, (cls, pos) in enumerate(rows):
-        b = a if pos == "both" else h.vertex(f"b{i}")
+        b = a if pos == "both" else h.vertex(f"b{i}", vcls)
         ends = {"v1": [a, b], "v2": [b, a], "both": [a, a]}[pos]
         l = h.link(f"L{i}", cls, ends)
         links.append(l)
@@ -165,7 +165,28 @@ def run(ctx):
                           f"neighbors() contributes {got!r} for a {kind}-kind link where the statement requires {exp!r}",
                           detail=f"link class {cls}, queried vertex is {pos}; derived {out!r}; filter calls {cb.calls if cb else None}",
                           replay=replay_snippet([(cls, pos)], d, uh, filt))
-    res.rule("TABLE", len(derived))
+    # ---- the same table on distinct vertices that compare equal (a user vertex class with value equality): the opposite end is the
+    # other *object*, and v occurs among its own neighbours only for a self-loop
+    neq = 0
+    for cls, pos, d, uh in itertools.product(("DirectedEdge", "UnDirectedEdge", "SymTwo"), POS, DIRS[:3], UHS):
+        exp = expected(KINDS[cls], pos, d, uh, "none")
+        h.reset()
+        a, links, others = build(h, [(cls, pos)], "EqVert")
+        try:
+            out = h.call(fn, a, C[d], C[uh], None)
+        except Unknown as u:
+            res.ob(False)
+            res.undecide(f"{FN} row {cls},{pos},{d},{uh} on value-equal vertices: {u}")
+            continue
+        neq += 1
+        got = classify(out, others[0], a)
+        ok = exp is None or (got in exp if isinstance(exp, set) else got == exp)
+        res.ob(ok, sig=("eq", cls, pos, d, uh))
+        if not ok:
+            res.violation("TABLE", FN, f"kind={KINDS[cls]},dir={d},unknown={uh},filter=none,vertices-compare-equal",
+                          f"neighbors() contributes {got!r} for a {KINDS[cls]}-kind link (queried vertex is {pos}) between two distinct vertices of a class with value equality; the statement requires {exp!r} (the opposite end)",
+                          replay=replay_snippet([(cls, pos)], d, uh, "none").replace("from edgegraph.traversal import helpers", "from edgegraph.traversal import helpers\nclass Vertex(Vertex):\n    __eq__ = lambda s, o: isinstance(o, Vertex)\n    __hash__ = lambda s: 0"))
+    res.rule("TABLE", len(derived) + neq)
     # ---- duality (derived table maps onto itself under FORWARD<->BACKWARD, v1<->v2)
     swap = {"v1": "v2", "v2": "v1", "both": "both"}
     nd = 0
